@@ -253,7 +253,7 @@ ADDENDA = {
  "C06": " Templates also come from the disassembler's accepted renderings (one per mnemonic and operand shape) for all 68 CPUs, including the 23 without a comparison file.",
  "C07": " Quick stride is odd (7); byte-oriented ISAs: all 256 values of a third/fourth byte that selects the instruction; 16-bit ISAs: structured extension words; a hex literal printed with d digits is compared as a 4d-bit field (0x00ff is not -1).",
  "C08": " Whole-image layouts are generated (1..5 segments, lone units, page crossings, far pages, ascending / descending / per-unit record order).",
- "C09": " A bulk family defines 1,500..30,000 equ/.define/#define(p)/.macro names (several 32 KiB pools) and uses early, middle and late ones.",
+ "C09": " A bulk family defines 1,500..8,000 equ/.define/#define(p)/.macro names (several 32 KiB pools) and uses early, middle and late ones.",
  "C10": " Besides the fixed list, ONE generated structural corruption (missing .endif/.if, second .else, extra .endif, stray directive at top level) is applied to a generated tree at a generated conditional and must be rejected.",
  "C11": " CPUs: msp430, avr8 (word addressed) and arm64 (ELFCLASS64).",
  "C12": " Every CPU with a corpus (47) is generated; include files are also pulled in from inside open conditionals.",
